@@ -106,8 +106,8 @@ PROPS = {
              ["Gx.C19.eval_rename", "Gx.C19.fv_rename", "Gx.C19.wellScoped_rename", "Gx.C19.capture_witness"],
              [],
              ids.c19_run, ids.c19_case),
-    "C20": P("GotranxProofs.Properties.C20 GotranxProofs.EndToEnd",
-             ["Gx.EndToEnd.sortedAssignments_total", "Gx.C20.rhsMatrixLoop_sound", "Gx.C20.eval_subst", "Gx.C20.sigma_of_solution", "Gx.C20.states_order", "Gx.C20.loop_done",
+    "C20": P("GotranxProofs.Properties.C20 GotranxProofs.RhsMatrixTotal",
+             ["Gx.RhsMatrixTotal.rhsMatrix_total", "Gx.RhsMatrixTotal.level_subst", "Gx.RhsMatrixTotal.fv_subst", "Gx.EndToEnd.sortedAssignments_total", "Gx.C20.rhsMatrixLoop_sound", "Gx.C20.eval_subst", "Gx.C20.sigma_of_solution", "Gx.C20.states_order", "Gx.C20.loop_done",
               "Gx.C20.jacobian_entry_correct", "Gx.C20.jacobian_shape", "Gx.diff_correct"],
              ["Gx.Pins.max_tries_shape"],
              ss.c20_run, ss.c20_case),
